@@ -671,11 +671,11 @@ def run(chk):
                     'instances, in optimisation and evaluation mode; x grid, x_ext_num, mean and the per-stage lead-time-demand tables (d, fd) are recomputed '
                     'by the harness with the same SciPy calls as ssm_serial.py lines 266-402 and passed to the model as exact rationals of the floats',
                     'oracle mathematics (exact top-down expected cost by enumeration of lead-time demands with exact rational pmfs, newsvendor fractiles) is Python in py/props/c07.py',
-                    'UNPROVED, search only: ssm_cost_is_long_run_cost_statement, shang_song_bounds_statement, optimality over all level vectors']
+                    'proved for exactly represented finite-support demand on integer grids (C07_ssm_cost_is_long_run_cost, C07_shang_song_bounds, C07_vector_optimal); the same facts are checked on the implementation by exact enumeration; normal demand: oracle only']
     chk.assume += ['floating-point rounding is not modelled: theorems are over exact rationals; costs are compared at 1e-9 relative (1e-3 against exact Poisson mathematics: '
                    'documented tail truncation), levels with a 1e-7 margin rule',
                    'integer-spaced grids only (Poisson, discrete-uniform, integer custom-discrete demand); normal demand is checked at oracle level only',
-                   'long-run cost = expected one-period cost of the stationary echelon inventory levels IL_j = min(S_j, IL_{j+1}) - D_j with independent lead-time demands (standard serial-system result, not proved here)']
+                   'long-run cost = expected one-period cost of the stationary echelon inventory levels IL_j = min(S_j, IL_{j+1}) - D_j with independent lead-time demands (the ergodic step is the standard serial-system result and is not proved; that the reported cost equals this expectation is C07_ssm_cost_is_long_run_cost)']
     chk.extra.setdefault('near_tie_skipped', 0)
     chk.proof()
     if chk.tier == 'quick':
